@@ -132,25 +132,25 @@ func vhC18UTF16(v uint32) (r uint32, wellFormed bool) {
 
 // VH_C18_tounicode_surrogates: one glyph whose character is any supplementary code point.
 func VH_C18_tounicode_surrogates() {
-	if !vSymbolic() {
+	if !vInterp() {
 		return
 	}
 	w, f := vhC18Setup(2)
 	u := rune(vNondetInt())
-	vAssume(0x10000 <= u && u <= 0x10FFFF)
+	vAssumeI(0x10000 <= u && u <= 0x10FFFF)
 	vhC18Uni = []rune{0, u}
 	vhC18Adv = []uint16{500, 500}
 	w.writeFont(pdfRef(4), f, false)
 	ents, ok := vhC18Entries()
-	vAssert("C18.tounicode.entries_recorded", ok && len(ents) == 2)
+	vAssertI("C18.tounicode.entries_recorded", ok && len(ents) == 2)
 	if len(ents) != 2 {
 		return
 	}
-	vAssert("C18.tounicode.notdef_entry", ents[0].lo == 0 && ents[0].hi == 0 && ents[0].val == 0xFFFD)
-	vAssert("C18.tounicode.cid_of_glyph", ents[1].lo == 1 && ents[1].hi == 1)
+	vAssertI("C18.tounicode.notdef_entry", ents[0].lo == 0 && ents[0].hi == 0 && ents[0].val == 0xFFFD)
+	vAssertI("C18.tounicode.cid_of_glyph", ents[1].lo == 1 && ents[1].hi == 1)
 	r, wf := vhC18UTF16(ents[1].val)
-	vAssert("C18.tounicode.surrogates_well_formed", wf && ents[1].val >= 0x10000)
-	vAssert("C18.tounicode.surrogates_decode_to_code_point", r == uint32(u))
+	vAssertI("C18.tounicode.surrogates_well_formed", wf && ents[1].val >= 0x10000)
+	vAssertI("C18.tounicode.surrogates_decode_to_code_point", r == uint32(u))
 }
 
 // VH_C18_tounicode_map: 2..3 glyphs (4 in the thorough tier) with arbitrary characters (BMP
@@ -158,7 +158,7 @@ func VH_C18_tounicode_surrogates() {
 // increasing order, and the value of each CID (first value + offset inside a range) decodes to
 // the character of its glyph.
 func VH_C18_tounicode_map() {
-	if !vSymbolic() {
+	if !vInterp() {
 		return
 	}
 	n := vChoose(2, 3+vTier()) + 1 // glyph ids 0..n-1
@@ -167,13 +167,13 @@ func VH_C18_tounicode_map() {
 	vhC18Adv = make([]uint16, n)
 	for g := 1; g < n; g++ {
 		u := rune(vNondetInt())
-		vAssume(0 < u && u <= 0x10FFFF && !(0xD800 <= u && u < 0xE000))
+		vAssumeI(0 < u && u <= 0x10FFFF && !(0xD800 <= u && u < 0xE000))
 		vhC18Uni[g] = u
 		vhC18Adv[g] = 500
 	}
 	w.writeFont(pdfRef(4), f, false)
 	ents, ok := vhC18Entries()
-	vAssert("C18.tounicode.entries_recorded", ok && len(ents) >= 1)
+	vAssertI("C18.tounicode.entries_recorded", ok && len(ents) >= 1)
 	next := 0
 	okCover, okVal := true, true
 	for _, e := range ents {
@@ -192,8 +192,8 @@ func VH_C18_tounicode_map() {
 		}
 		next = int(e.hi) + 1
 	}
-	vAssert("C18.tounicode.every_cid_once", okCover && next == n)
-	vAssert("C18.tounicode.values_decode_to_characters", okVal)
+	vAssertI("C18.tounicode.every_cid_once", okCover && next == n)
+	vAssertI("C18.tounicode.values_decode_to_characters", okVal)
 }
 
 // C18-H4: the W/DW width arrays written by writeFont, decoded as a PDF reader does (ISO 32000
@@ -209,7 +209,7 @@ func VH_C18_tounicode_map() {
 var vhC18AdvDomain = []uint16{500, 0, 600}
 
 func VH_C18_warray() {
-	if !vSymbolic() {
+	if !vInterp() {
 		return
 	}
 	vMerge(false) // the run start/end indices must stay concrete (they are slice bounds)
@@ -226,11 +226,11 @@ func VH_C18_warray() {
 	// the font dictionary is the last value written
 	ok := len(vhC18Vals) > 0
 	if !ok {
-		vAssert("C18.warray.dict_written", false)
+		vAssertI("C18.warray.dict_written", false)
 		return
 	}
 	dict, ok1 := vhC18Vals[len(vhC18Vals)-1].(pdfDict)
-	vAssert("C18.warray.dict_written", ok1)
+	vAssertI("C18.warray.dict_written", ok1)
 	if !ok1 {
 		return
 	}
@@ -275,13 +275,13 @@ func VH_C18_warray() {
 			wf = false
 		}
 	}
-	vAssert("C18.warray.well_formed", wf)
+	vAssertI("C18.warray.well_formed", wf)
 	okW, okOnce := true, true
 	for c := 0; c < n; c++ {
 		want := int(1000.0/float64(f.SFNT.Head.UnitsPerEm)*float64(vhC18Adv[c]) + 0.5)
 		okW = okW && got[c] == want
 		okOnce = okOnce && seen[c] <= 1
 	}
-	vAssert("C18.warray.every_cid_gets_its_width", okW)
-	vAssert("C18.warray.no_cid_listed_twice", okOnce)
+	vAssertI("C18.warray.every_cid_gets_its_width", okW)
+	vAssertI("C18.warray.no_cid_listed_twice", okOnce)
 }
